@@ -15,6 +15,9 @@ CLAIMED = {
  "C05": ("reference-model monitor: real kernel(x1,x2) / diag outputs vs independent docstring formulas and autograd derivatives, with fast-path witnesses",
          "Runtime monitoring at the public kernel boundary: every exported closed-form kernel (RBF, Matern x3, RQ, periodic, cosine, linear, polynomial, constant, piecewise-polynomial q0-3, spectral mixture, Hamming, scale/sum/product, additive/product structure, Newton-Girard, active_dims incl. permuted) is evaluated over n1!=n2 / same-tensor / n=1, ARD, parameter and input batches, three evaluation paths (fast no-grad, inputs requiring grad, trace_mode), three parameter regimes, and compared with formulas written from the docstrings; derivative kernels (RBF-grad, Matern52-grad, polynomial-grad, RBF-grad-grad; ARD) are compared with autograd derivatives of the base kernel in the interleaved layout. Decides executed cells only.",
          "Oracle formulas are hand-written from the docstrings (trusted after agreeing with the tree on all cells except the recorded findings); kernels non-smooth at r=0 compared at 1e-6..2e-5 absolute.", "DESIGN.md §4 C05"),
+ "C11": ("reference-model monitor: every observation of a real MultitaskMultivariateNormal mapped into a layout-free joint; index expressions enumerated",
+         "Runtime monitoring at the distribution's public boundary: mean, variance, log_prob (fast and Cholesky), rsample with base samples (affine, L L^T = joint), to_data_independent_dist, the three constructors over every valid task_dim, and d[idx] for every (point index, task index) pair from enumerated candidate sets (negative ints, slices with any start/stop/step incl. out-of-range, index tensors, batch indices, Ellipsis) are compared with a canonical joint built from the dense covariance and the declared layout, for n != t, both layouts, batch shapes. Decides executed cells only (thorough: all pairs on six shapes).",
+         "Trusts torch dense algebra and the oracle's own index arithmetic on an arange position tensor (torch indexing semantics).", "DESIGN.md §4 C11"),
 }
 NOT_YET = "check not built yet in this round (see DESIGN.md §9 build order); not claimed until its monitor exists and is silent on the unchanged tree"
 
